@@ -159,9 +159,9 @@ def errStatus : ParseErr → Nat
   | .request s => s
   | .other => Gen.HttpRespond.errDefaultStatus
 
-/-- what the Upgrade seam answers for a parsed request (`none` = no Upgrade header, or the subclass declined) -/
-def upgradeOf (srv : Server) (p : ParsedReq) : Option Resp :=
-  if hasUpgradeHeader (mkReq p).headers then srv.upgradeHook (mkReq p) else none
+/-- what the Upgrade seam does for a parsed request (`ret none` = no Upgrade header, or the subclass declined) -/
+def upgradeSeam (srv : Server) (p : ParsedReq) : Seam (Option Resp) :=
+  if hasUpgradeHeader (mkReq p).headers then srv.upgradeHook (mkReq p) else .ret none
 
 def decisionOf (srv : Server) (p : ParsedReq) : Decision Handler :=
   classifyRequest srv.routes srv.defaultHandler (mkReq p).method (mkReq p).path (splitPath (mkReq p).path)
@@ -172,41 +172,114 @@ def reqOf (srv : Server) (p : ParsedReq) : Req := applyDecision (mkReq p) (decis
 /-- the response object after the dispatch switch, and `ranHandler` -/
 def dispatched (srv : Server) (p : ParsedReq) : Resp × Bool := dispatch (decisionOf srv p) (reqOf srv p)
 
-/-- the suppression test of `processHttpRequest` -/
-def suppressedBy (srv : Server) (p : ParsedReq) : Bool :=
-  (dispatched srv p).2 && ((dispatched srv p).1.suppress || srv.suppressHook (reqOf srv p) (dispatched srv p).1)
+/-- the suppression test of `processHttpRequest`: `ranHandler && (res._suppressSend || onResponseSuppressed(...))` — the seam
+    is consulted only if a handler ran and did not already set the flag -/
+def suppressSeam (srv : Server) (p : ParsedReq) : Seam Bool :=
+  if (dispatched srv p).2 then
+    (if (dispatched srv p).1.suppress then .ret true else srv.suppressHook (reqOf srv p) (dispatched srv p).1)
+  else .ret false
+
+/-- the error arm as the engine sees it -/
+def errorOutcome (env : Env) (status : Nat) : Outcome :=
+  if !env.upAtSend then .nothing
+  else if env.enqueueOk then .respond (errorWire status) env.upAtClose else .sendFailed env.upAtClose
+
+theorem outcomeOf_errorArm (env : Env) (status : Nat) : outcomeOf env (errorArm env status, false) = errorOutcome env status := by
+  unfold errorArm errorOutcome outcomeOf
+  cases env.upAtSend <;> cases env.upAtClose <;> cases env.enqueueOk <;> simp
+
+theorem outcomeOf_normalSend (env : Env) (w : Bytes) (c : Bool) : outcomeOf env (normalSend env w c, false) = sendBlock env w c := by
+  unfold normalSend sendBlock outcomeOf
+  cases env.upAtSend <;> cases env.upAtClose <;> cases env.enqueueOk <;> cases c <;> simp
 
 theorem process_shutdown (srv : Server) (env : Env) (data : Bytes) (h : env.shutdownAtEntry = true) :
     process srv env data =
       if env.transportAtEntry then (if env.enqueueOk then .respond shutdownWire true else .sendFailed true) else .nothing := by
-  simp [process, h]
+  simp only [process, processCalls, h, if_true]
+  cases ht : env.transportAtEntry <;> cases he : env.enqueueOk <;> simp [outcomeOf, he]
 
 theorem process_error (srv : Server) (env : Env) (data : Bytes) (e : ParseErr)
     (h : env.shutdownAtEntry = false) (hp : fromWireFormat data = .error e) :
-    process srv env data =
-      if !env.upAtSend then .nothing
-      else if env.enqueueOk then .respond (errorWire (errStatus e)) env.upAtClose else .sendFailed env.upAtClose := by
-  cases e <;> simp [process, h, hp, errStatus]
+    process srv env data = errorOutcome env (errStatus e) := by
+  cases e <;> simp [process, processCalls, h, hp, errStatus, outcomeOf_errorArm]
 
 theorem process_upgrade (srv : Server) (env : Env) (data : Bytes) (p : ParsedReq) (u : Resp)
-    (h : env.shutdownAtEntry = false) (hp : fromWireFormat data = .ok p) (hu : upgradeOf srv p = some u) :
+    (h : env.shutdownAtEntry = false) (hp : fromWireFormat data = .ok p) (hu : upgradeSeam srv p = .ret (some u)) :
     process srv env data =
       if !env.upAtSend then .nothing
       else if !env.enqueueOk then .sendFailed false
       else .respond (toWire u.status (statusText u.status)
              (hSet u.headers (ascii "Server") (ascii Gen.HttpRespond.serverHeader)) u.body) false := by
-  unfold upgradeOf at hu
-  simp [process, h, hp, hu]
+  unfold upgradeSeam at hu
+  simp only [process, processCalls, h, hp, hu]
+  cases ht : env.upAtSend <;> cases he : env.enqueueOk <;> simp [outcomeOf, he]
 
-theorem process_ok (srv : Server) (env : Env) (data : Bytes) (p : ParsedReq)
-    (h : env.shutdownAtEntry = false) (hp : fromWireFormat data = .ok p) (hu : upgradeOf srv p = none) :
+/-- a seam that throws: a `std::exception` always, anything else since the arm is `catch (...)`, ends in the error arm's 500 -/
+theorem process_upgrade_threw (srv : Server) (env : Env) (data : Bytes) (p : ParsedReq) (std : Bool)
+    (h : env.shutdownAtEntry = false) (hp : fromWireFormat data = .ok p) (hu : upgradeSeam srv p = .threw std) :
+    process srv env data = errorOutcome env 500 := by
+  have hg : Gen.HttpRespond.errCatchesAll = true := by decide
+  have hd : Gen.HttpRespond.errDefaultStatus = 500 := by decide
+  unfold upgradeSeam at hu
+  simp only [process, processCalls, h, hp, hu, seamThrew, hg, Bool.or_true, if_true, hd]
+  exact outcomeOf_errorArm env 500
+
+theorem process_ok (srv : Server) (env : Env) (data : Bytes) (p : ParsedReq) (b : Bool)
+    (h : env.shutdownAtEntry = false) (hp : fromWireFormat data = .ok p) (hu : upgradeSeam srv p = .ret none)
+    (hs : suppressSeam srv p = .ret b) :
     process srv env data =
-      if suppressedBy srv p then .suppressed
+      if b then .suppressed
       else sendBlock env (buildWire env (reqOf srv p) (dispatched srv p).1).1 (buildWire env (reqOf srv p) (dispatched srv p).1).2 := by
-  unfold upgradeOf at hu
-  simp only [process, h, hp, hu]
-  simp only [suppressedBy, dispatched, reqOf, decisionOf]
-  rfl
+  unfold upgradeSeam at hu
+  unfold suppressSeam dispatched reqOf decisionOf at hs
+  simp only [process, processCalls, h, hp, hu]
+  simp only [dispatched, reqOf, decisionOf]
+  generalize hd : dispatch _ _ = dr at hs ⊢
+  obtain ⟨res, ran⟩ := dr
+  simp only at hs ⊢
+  cases ran with
+  | false =>
+    simp only [Bool.false_and, Bool.false_eq_true, if_false] at hs ⊢
+    cases hs
+    simp only [Bool.false_eq_true, if_false]
+    exact outcomeOf_normalSend env _ _
+  | true =>
+    simp only [Bool.true_and, if_true] at hs ⊢
+    cases hsup : res.suppress with
+    | true =>
+      simp only [hsup, if_true] at hs ⊢
+      cases hs
+      simp [outcomeOf]
+    | false =>
+      simp only [hsup, Bool.false_eq_true, if_false] at hs ⊢
+      rw [hs]
+      cases b with
+      | true => simp [outcomeOf]
+      | false => simp only [Bool.false_eq_true, if_false]; exact outcomeOf_normalSend env _ _
+
+theorem process_suppress_threw (srv : Server) (env : Env) (data : Bytes) (p : ParsedReq) (std : Bool)
+    (h : env.shutdownAtEntry = false) (hp : fromWireFormat data = .ok p) (hu : upgradeSeam srv p = .ret none)
+    (hs : suppressSeam srv p = .threw std) :
+    process srv env data = errorOutcome env 500 := by
+  have hg : Gen.HttpRespond.errCatchesAll = true := by decide
+  have hd' : Gen.HttpRespond.errDefaultStatus = 500 := by decide
+  unfold upgradeSeam at hu
+  unfold suppressSeam dispatched reqOf decisionOf at hs
+  simp only [process, processCalls, h, hp, hu]
+  generalize hd : dispatch _ _ = dr at hs ⊢
+  obtain ⟨res, ran⟩ := dr
+  simp only at hs ⊢
+  cases ran with
+  | false => simp at hs
+  | true =>
+    simp only [Bool.true_and, if_true] at hs ⊢
+    cases hsup : res.suppress with
+    | true => simp [hsup] at hs
+    | false =>
+      simp only [hsup, Bool.false_eq_true, if_false] at hs ⊢
+      rw [hs]
+      simp only [seamThrew, hg, Bool.or_true, if_true, hd']
+      exact outcomeOf_errorArm env 500
 
 /-! ### O1: exactly one response when the server is up -/
 
@@ -252,55 +325,147 @@ theorem dispatch_ran_iff (d : Decision Handler) (req : Req) : (dispatch d req).2
   | methodNotAllowed _ => simp [dispatch, Decision.userHandler?]
 
 /-- A response is suppressed only by an explicit take-over: the handler that ran returned normally with `_suppressSend`
-    set, or the subclass seam `onResponseSuppressed` said so. -/
-theorem suppressedBy_explicit (srv : Server) (p : ParsedReq) (hs : suppressedBy srv p = true) :
+    set, or the subclass seam `onResponseSuppressed` returned true. -/
+theorem suppressSeam_explicit (srv : Server) (p : ParsedReq) (hs : suppressSeam srv p = .ret true) :
     ∃ h, (decisionOf srv p).userHandler? = some h ∧
       (((h (reqOf srv p) prefilled).threw = false ∧ (h (reqOf srv p) prefilled).res.suppress = true) ∨
-       srv.suppressHook (reqOf srv p) (dispatched srv p).1 = true) := by
-  simp only [suppressedBy, Bool.and_eq_true, Bool.or_eq_true] at hs
-  obtain ⟨hran, hsup⟩ := hs
-  obtain ⟨h, hh⟩ := (dispatch_ran_iff _ _).1 (by simpa [dispatched] using hran)
-  refine ⟨h, hh, ?_⟩
-  rcases hsup with hsup | hsup
-  · left
-    have hd : (dispatched srv p).1 = invokeWithSafetyNet h (reqOf srv p) prefilled := by
-      simp [dispatched, dispatch_userHandler _ _ h hh]
-    rw [hd] at hsup
-    cases ht : (h (reqOf srv p) prefilled).threw with
+       srv.suppressHook (reqOf srv p) (dispatched srv p).1 = .ret true) := by
+  unfold suppressSeam at hs
+  cases hran : (dispatched srv p).2 with
+  | false => simp [hran] at hs
+  | true =>
+    obtain ⟨h, hh⟩ := (dispatch_ran_iff _ _).1 (by simpa [dispatched] using hran)
+    refine ⟨h, hh, ?_⟩
+    simp only [hran, if_true] at hs
+    cases hsup : (dispatched srv p).1.suppress with
+    | false => right; simpa [hsup] using hs
     | true =>
-      have := (safetyNet_threw h (reqOf srv p) prefilled ht).2.2.2
-      rw [this] at hsup; cases hsup
-    | false =>
-      rw [safetyNet_returned h _ _ ht] at hsup
-      exact ⟨rfl, hsup⟩
-  · right; exact hsup
+      left
+      have hd : (dispatched srv p).1 = invokeWithSafetyNet h (reqOf srv p) prefilled := by
+        simp [dispatched, dispatch_userHandler _ _ h hh]
+      rw [hd] at hsup
+      cases ht : (h (reqOf srv p) prefilled).threw with
+      | true =>
+        have := (safetyNet_threw h (reqOf srv p) prefilled ht).2.2.2
+        rw [this] at hsup; cases hsup
+      | false =>
+        rw [safetyNet_returned h _ _ ht] at hsup
+        exact ⟨rfl, hsup⟩
 
 theorem sendBlock_up (env : Env) (w : Bytes) (c : Bool) (h2 : env.upAtSend = true) (h3 : env.enqueueOk = true) :
     sendBlock env w c = .respond w (c && env.upAtClose) := by
   simp [sendBlock, h2, h3]
 
-/-- server up: every extracted request is answered by exactly one Send, or explicitly suppressed -/
+theorem errorOutcome_up (env : Env) (st : Nat) (h2 : env.upAtSend = true) (h3 : env.enqueueOk = true) :
+    errorOutcome env st = .respond (errorWire st) env.upAtClose := by
+  simp [errorOutcome, h2, h3]
+
+/-- server up: every extracted request is answered by exactly one Send, or explicitly suppressed — also when a subclass
+    seam throws, whatever it throws -/
 theorem process_up_cases (srv : Server) (env : Env) (data : Bytes)
     (h1 : env.shutdownAtEntry = false) (h2 : env.upAtSend = true) (h3 : env.enqueueOk = true) :
     (∃ w c, process srv env data = .respond w c) ∨
     (process srv env data = .suppressed ∧
-      ∃ p, fromWireFormat data = .ok p ∧ upgradeOf srv p = none ∧ suppressedBy srv p = true) := by
+      ∃ p, fromWireFormat data = .ok p ∧ upgradeSeam srv p = .ret none ∧ suppressSeam srv p = .ret true) := by
   cases hp : fromWireFormat data with
   | error e =>
     left
-    rw [process_error srv env data e h1 hp]
-    simp [h2, h3]
+    rw [process_error srv env data e h1 hp, errorOutcome_up env _ h2 h3]
+    exact ⟨_, _, rfl⟩
   | ok p =>
-    cases hu : upgradeOf srv p with
-    | some u =>
+    cases hu : upgradeSeam srv p with
+    | threw std =>
       left
-      rw [process_upgrade srv env data p u h1 hp hu]
-      simp [h2, h3]
-    | none =>
-      rw [process_ok srv env data p h1 hp hu]
-      cases hs : suppressedBy srv p with
-      | true => right; exact ⟨by simp, p, rfl, hu, hs⟩
-      | false => left; simp [sendBlock_up env _ _ h2 h3]
+      rw [process_upgrade_threw srv env data p std h1 hp hu, errorOutcome_up env _ h2 h3]
+      exact ⟨_, _, rfl⟩
+    | ret o =>
+      cases o with
+      | some u =>
+        left
+        rw [process_upgrade srv env data p u h1 hp hu]
+        simp [h2, h3]
+      | none =>
+        cases hs : suppressSeam srv p with
+        | threw std =>
+          left
+          rw [process_suppress_threw srv env data p std h1 hp hu hs, errorOutcome_up env _ h2 h3]
+          exact ⟨_, _, rfl⟩
+        | ret b =>
+          rw [process_ok srv env data p b h1 hp hu hs]
+          cases b with
+          | true => right; exact ⟨by simp, p, rfl, hu, hs⟩
+          | false => left; simp [sendBlock_up env _ _ h2 h3]
+
+/-! ### the calls of one `processHttpRequest`: shape from the control flow -/
+
+/-- at most one `sendAsync`, and a `close` only directly after it -/
+def CallsShaped (l : List Call) : Prop := l = [] ∨ ∃ w, l = [.sendAsync w] ∨ l = [.sendAsync w, .close]
+
+theorem errorArm_shaped (env : Env) (st : Nat) : CallsShaped (errorArm env st) := by
+  unfold errorArm CallsShaped
+  cases env.upAtSend <;> cases env.upAtClose <;> simp
+
+theorem seamThrew_shaped (env : Env) (std : Bool) : CallsShaped (seamThrew env std) := by
+  unfold seamThrew
+  split
+  · exact errorArm_shaped _ _
+  · simp [CallsShaped]
+
+theorem normalSend_shaped (env : Env) (w : Bytes) (c : Bool) : CallsShaped (normalSend env w c) := by
+  unfold normalSend CallsShaped
+  cases env.upAtSend <;> cases env.upAtClose <;> cases env.enqueueOk <;> cases c <;> simp
+
+/-- Case analysis of the control flow of `processHttpRequest` — every arm, every guard, every seam outcome: the calls are
+    `[]`, `[sendAsync w]` or `[sendAsync w, close]`. -/
+theorem processCalls_shape (srv : Server) (env : Env) (data : Bytes) : CallsShaped (processCalls srv env data).1 := by
+  unfold processCalls
+  split
+  · split <;> simp [CallsShaped]
+  · split
+    · exact errorArm_shaped _ _
+    · simp only
+      split
+      · exact seamThrew_shaped _ _
+      · split <;> simp [CallsShaped]
+      · generalize dispatch _ _ = dr
+        obtain ⟨res, ran⟩ := dr
+        simp only
+        split
+        · simp [CallsShaped]
+        · split
+          · exact seamThrew_shaped _ _
+          · simp [CallsShaped]
+          · exact normalSend_shaped _ _ _
+
+/-- the engine commands that result from the calls: a refused `sendAsync` enqueues nothing -/
+def engineCmds (env : Env) : List Call → List Cmd
+  | [] => []
+  | .sendAsync w :: rest => (if env.enqueueOk then [.send w] else []) ++ engineCmds env rest
+  | .close :: rest => .close :: engineCmds env rest
+
+theorem process_cmds (srv : Server) (env : Env) (data : Bytes) :
+    (process srv env data).cmds = engineCmds env (processCalls srv env data).1 := by
+  have hsh := processCalls_shape srv env data
+  unfold process outcomeOf
+  rcases hsh with h | ⟨w, h | h⟩
+  · rw [h]; cases (processCalls srv env data).2 <;> simp [Outcome.cmds, engineCmds]
+  · rw [h]; cases he : env.enqueueOk <;> simp [Outcome.cmds, engineCmds, he]
+  · rw [h]; cases he : env.enqueueOk <;> simp [Outcome.cmds, engineCmds, he]
+
+theorem engineCmds_count (env : Env) (l : List Call) (h : CallsShaped l) : countSends (engineCmds env l) ≤ 1 := by
+  rcases h with h | ⟨w, h | h⟩ <;> subst h <;> cases he : env.enqueueOk <;> simp [engineCmds, countSends, he]
+
+theorem process_ok_false (srv : Server) (env : Env) (data : Bytes) (p : ParsedReq)
+    (h : env.shutdownAtEntry = false) (hp : fromWireFormat data = .ok p) (hu : upgradeSeam srv p = .ret none)
+    (hs : suppressSeam srv p = .ret false) :
+    process srv env data =
+      sendBlock env (buildWire env (reqOf srv p) (dispatched srv p).1).1 (buildWire env (reqOf srv p) (dispatched srv p).1).2 := by
+  rw [process_ok srv env data p false h hp hu hs]; simp
+
+theorem process_ok_true (srv : Server) (env : Env) (data : Bytes) (p : ParsedReq)
+    (h : env.shutdownAtEntry = false) (hp : fromWireFormat data = .ok p) (hu : upgradeSeam srv p = .ret none)
+    (hs : suppressSeam srv p = .ret true) : process srv env data = .suppressed := by
+  rw [process_ok srv env data p true h hp hu hs]; simp
 
 /-! ### the wire: HEAD / bodyless reconciliation, Content-Length, Connection -/
 
